@@ -62,6 +62,8 @@ type Term struct {
 	Name   string // OpVar, OpApp
 	Hi, Lo int    // OpExtract
 	ID     int
+	// IteDepth is the nesting depth of if-then-else nodes below this term.
+	IteDepth int
 }
 
 func (t *Term) IsConst() bool { return t.Op == OpConst }
@@ -118,6 +120,14 @@ func (c *Ctx) mk(t *Term) *Term {
 	}
 	t.ID = c.next
 	c.next++
+	for _, a := range t.Args {
+		if a.IteDepth > t.IteDepth {
+			t.IteDepth = a.IteDepth
+		}
+	}
+	if t.Op == OpIte {
+		t.IteDepth++
+	}
 	c.tab[k] = t
 	return t
 }
